@@ -319,8 +319,8 @@ func (f *Filter) removeOneWithRoot(value, root any) (out any, changed bool) {
 	return
 }
 
-func (f *Filter) locate(pp Expr, data any, rest Expr, max int) (locs []Expr) {
-	ns, lcs := f.evalWithRoot([]any{}, data, nil)
+func (f *Filter) locate(pp Expr, data, root any, rest Expr, max int) (locs []Expr) {
+	ns, lcs := f.evalWithRoot([]any{}, data, root)
 	stack, _ := ns.([]any)
 	if len(rest) == 0 { // last one
 		for _, lc := range lcs {
@@ -333,7 +333,7 @@ func (f *Filter) locate(pp Expr, data any, rest Expr, max int) (locs []Expr) {
 		cp := append(pp, nil) // place holder
 		for i, lc := range lcs {
 			cp[len(pp)] = lc
-			locs = locateContinueFrag(locs, cp, stack[i], rest, max)
+			locs = locateContinueFrag(locs, cp, stack[i], root, rest, max)
 			if 0 < max && max <= len(locs) {
 				break
 			}
